@@ -52,6 +52,10 @@ func c12Header(r *fw.Rand, allowMaxDim bool) *ref.VP9Header {
 		h.NonKey = true
 	}
 	h.ShowFrame, h.ErrorRes = r.Bool(), r.Bool()
+	if h.NonKey && !h.ShowFrame && r.Bool() {
+		// a hidden intra-only frame: sync code, colour configuration and frame size of its own - and still a non-key frame
+		h.IntraOnly, h.ResetContext, h.RefreshFlags = true, uint8(r.Intn(4)), uint8(r.Intn(256))
+	}
 	h.TenOrTwelve = r.Bool()
 	h.ColorSpace = uint8(r.Intn(8))
 	h.ColorRange = r.Bool()
@@ -274,6 +278,13 @@ func c12Hdr(c *fw.Ctx, i int) {
 	r := c.R
 	h := c12Header(r, true)
 	hb, nbits := h.Encode()
+	if h.NonKey && h.IntraOnly {
+		// the fields the property speaks of end with error_resilient_mode for a non-key frame: what an intra-only frame carries after
+		// them is payload as far as the parser is concerned, and an input may end anywhere inside it
+		plain := *h
+		plain.IntraOnly = false
+		_, nbits = plain.Encode()
+	}
 	full := append(append([]byte{}, hb...), r.Bytes(r.Intn(4))...)
 	check := func(in []byte, complete bool) bool {
 		var got vp9.Header
